@@ -184,8 +184,8 @@ def run(ctx, rep):
                 tot = summands(get(bc, "used", "epus_t"))
                 parts = []
                 for sname, sp, sv in emap_items(get(bc, "used", "epus_by_srv_t")):
-                    if sp is tm.FALSE:
-                        continue
+                    if sp is tm.FALSE or sv is tm.GARBAGE:
+                        continue              # never present (a value that no path can produce is garbage)
                     ss = summands(sv)
                     parts.append((sname, ss))
                 shape = tot is not None and all(ss is not None for _n, ss in parts)
